@@ -363,6 +363,9 @@ def c03_disk(d, ray, some):
     if dot(dl, dl) == 0: return None
     den = dot(d.n, dl); dmag = adot(d.n, dl)
     if den * den < (EPS * (1 + M6)) ** 2 or abs(den) < M6 * dmag: return None
+    # tangency band: a ray within 1e-6 rad of the disk's plane is not a clear case (behind an attached transform the computed
+    # n . d of such a ray is rounding residue; `dmag` above only measures the cancellation inside the dot product)
+    if den * den < M6 * M6 * dot(d.n, d.n) * dot(dl, dl): return None
     dt = nudge_dt(d.Minv, o, dl) if d.nudged else Fr(0)
     t = dot(d.n, sub(d.c, ol)) / den
     T = (adot(d.n, d.c) + adot(d.n, apt_abs(d.Minv, o))) / abs(den)
